@@ -2,7 +2,7 @@
 From Coq Require Import ZArith List String Bool.
 From Hexital Require Import Base.Prelude Base.Num Model.Manager Model.Candle Model.Readings Model.Engine
   Model.Analysis Inst.ZInst Proofs.AccessProofs Proofs.FrameProofs Proofs.AnalysisProofs Proofs.CausalProofs
-  Proofs.SimProofs Proofs.NonInterference Proofs.ParamProofs Proofs.NonInterferenceTF.
+  Proofs.SimProofs Proofs.NonInterference Proofs.ParamProofs Proofs.NonInterferenceTF Model.Hexital Proofs.HxTwin.
 Import ListNotations.
 
 (* Whatever any indicator tree does - calculate, calculate_index (positive or negative
@@ -103,6 +103,28 @@ Theorem C13_leaf_noninterference_on_any_manager :
                    | Ok _, Ok _ => True | Err e1, Err e2 => e1 = e2 | _, _ => False end).
 Proof. intros O B others Hl Ht Hk Hn Hf s1 s2 HP. eapply noninterference_on_any_manager; eassumption. Qed.
 Print Assumptions C13_leaf_noninterference_on_any_manager.
+
+(* At the level of the container: two Hexitals with different other members (any names B neither
+   reads nor owns, any timeframes), driven by different programs (appends, calculate() of anything,
+   purge / recalculate / calculate_index / remove_indicator aimed at other members, add_indicator),
+   that hand B the same candles and the same calculate() calls, leave B with the same candles and
+   the same readings - "regardless of the other indicators registered and of the operation order". *)
+Theorem C13_member_unaffected_by_the_other_members :
+  forall (O : NumOps) (B : ind O),
+  i_subs O B = [] /\ i_managed O B = [] -> i_sub O B = false -> leaf_kind O (i_kind O B) = true ->
+  has_dot (i_name O B) = false ->
+  forall (others1 others2 : list (bool * string)) (key1 key2 : string) (cfg hcfg1 hcfg2 : mcfg)
+         (ops1 ops2 : list (hop O)) (h1 h1' h2 h2' : hexital O) (twin : store O),
+  foreign O B others1 -> foreign O B others2 ->
+  Inv O B others1 key1 cfg h1 twin -> Inv O B others2 key2 cfg h2 twin ->
+  Forall (op_allowed O B others1 key1) ops1 -> Forall (op_allowed O B others2 key2) ops2 ->
+  foldM (hx_step O hcfg1) ops1 h1 = Ok h1' -> foldM (hx_step O hcfg2) ops2 h2 = Ok h2' ->
+  foldM (twin_step O B cfg) ops1 twin = foldM (twin_step O B cfg) ops2 twin ->
+  exists s1 s2, alist_get key1 (h_mgrs O h1') = Some (cfg, s1) /\ alist_get key2 (h_mgrs O h2') = Some (cfg, s2) /\
+    map (fun c => (t c, cur O (p c), alist_get (i_name O B) (inds O (p c)))) s1 =
+    map (fun c => (t c, cur O (p c), alist_get (i_name O B) (inds O (p c)))) s2.
+Proof. intros O B Hl Ht Hk Hn o1 o2 k1 k2 cfg c1 c2 ops1 ops2 h1 h1' h2 h2' tw. apply member_agrees_across_hexitals; assumption. Qed.
+Print Assumptions C13_member_unaffected_by_the_other_members.
 
 (* the paired histories on a manager are inhabited: a timeframe with gap filling, Heikin-Ashi
    and a lifespan, four raw candles (one gap), an SMA, another member's entry as the foreign name *)
